@@ -1917,6 +1917,11 @@ for _ty in ('u8', 'u16', 'u32', 'u64', 'usize'):
     M['%s::checked_shl' % _ty] = _checked_shl
 
 
+@model('hint::must_use', 'hint::black_box', 'convert::identity')
+def _identity(it, c, a):
+    return a[0]
+
+
 @model('<bool as Not>::not', '<&bool as Not>::not')
 def _bool_not(it, c, a):
     v = deref(a[0])
